@@ -70,14 +70,17 @@ def observe(cid, body, entry="file"):
             return rec
     for f in FIELDS:
         v = getattr(m, f)
+        # (by the TYPE of what is there, not by what the field ought to hold: a string field holding an int is an observation)
         if v is None:
             o = ["none"]
-        elif f == "player2":
-            o = ["p2", v.name]
-        elif isinstance(v, bool) or isinstance(v, int):
-            o = ["int", [int(c) for c in str(int(v))]]
-        else:
+        elif isinstance(v, str):
             o = ["str", cps(v)]
+        elif isinstance(v, bool) or isinstance(v, int):
+            o = ["int", [int(c) for c in str(abs(int(v)))]] if int(v) >= 0 else ["other", "negative-int"]
+        elif hasattr(v, "name") and hasattr(type(v), "__members__"):
+            o = ["p2", str(v.name)]
+        else:
+            o = ["other", type(v).__name__]
         rec["obs"]["f_" + f] = o
     return rec
 
